@@ -35,7 +35,7 @@ mod verif_kani {
         let sig = Signature(ecdsa::Signature::from_scalars(scalar(rb), scalar(sb)).unwrap(), RecoveryId::new(parity, false));
         let out = tx.rlp_encode(if SIGNED { Some(sig) } else { None });
 
-        assert!(out.len() == 2 && out[0] == 0x02 && out[1] == 0xee, "eip1559: type byte 0x02 followed by exactly one RLP list");
+        assert!(out.len() == 2 && out[0] == 0x02 && tk::is_list(out[1], 5, if SIGNED { 12 } else { 9 }), "eip1559: type byte 0x02 followed by exactly one RLP list");
         let (calls, n, it) = unsafe { (tk::LIST_CALLS, tk::NITEMS, tk::ITEMS) };
         assert!(calls == 1, "eip1559: one list");
         assert!(n == if SIGNED { 12 } else { 9 }, "eip1559: 9 fields, 12 when signed");
